@@ -344,7 +344,8 @@ pub fn finish(ctx: &Ctx, acc: Acc, meta: Meta) -> i32 {
     for v in &acc.viol {
         by_sig.entry(v.signature.clone()).or_default().push(v);
     }
-    let replay_dir = format!("{}/replays/{}", VERIF_DIR, ctx.prop);
+    let out_dir = std::env::var("VMON_OUT_DIR").unwrap_or_else(|_| VERIF_DIR.to_string());
+    let replay_dir = format!("{}/replays/{}", out_dir, ctx.prop);
     let _ = std::fs::create_dir_all(&replay_dir);
     let mut n_new = 0usize;
     let mut known_hit: BTreeSet<String> = BTreeSet::new();
@@ -411,7 +412,7 @@ pub fn finish(ctx: &Ctx, acc: Acc, meta: Meta) -> i32 {
         "verdict": if n_new > 0 { "violated" } else if inconclusive { "inconclusive" } else { "held-on-observed" },
     });
     if ctx.replay.is_none() {
-        let dir = format!("{}/evidence", VERIF_DIR);
+        let dir = format!("{}/evidence", out_dir);
         let _ = std::fs::create_dir_all(&dir);
         let tmp = format!("{}/{}.json.tmp", dir, ctx.prop);
         let fin = format!("{}/{}.json", dir, ctx.prop);
